@@ -255,6 +255,7 @@ func propC07(t *rapid.T) {
 		w.logf("B imports keystore")
 	}
 	wB := &World{node: w.node, env: envB, flags: w.flags, gap: gap, tipAnnounced: true, pending: map[wire.Hash]*wire.MsgTx{}, everSeen: map[wire.Hash]*wire.MsgTx{}}
+	defer wB.apiForget()
 	importing := func() bool {
 		ready, _, exists := wB.walletStatus(t, m.id)
 		if !exists {
